@@ -138,6 +138,10 @@ def main(tier, seed, replay=None):
                     for m in maps[::7]:
                         cases.append((base, [("extend_offs", shared, (0, 0, 0, 0, 0), m)], "explicit-zero-offsets"))
                     cases.append((base, [("extend_twice", frag)], "twice-shared-offsets"))
+                    # a caller that keeps one identity-map object and grafts the same fragment repeatedly
+                    for m in [mm for mm in maps if 1 <= len(mm) <= 2][::5]:
+                        cases.append((base, [("extend_shared", frag, m), ("extend_shared", frag, m)], "same-map-object-twice"))
+                        cases.append((base, [("extend_shared", frag, m), ("del", [len(base["pos"])]), ("extend_shared", frag, m)], "same-map-object-after-delete"))
             # random larger pairs with extra columns (disjoint / overlapping / equal label sets, permuted label order)
             nrand = 60 if tier == "quick" else 600
             for i in range(nrand):
@@ -188,8 +192,11 @@ def main(tier, seed, replay=None):
             s = states[0]
             if isinstance(s, tuple):
                 bad = ["raised " + s[1]]
-            elif op[0] == "extend":
+            elif op[0] in ("extend", "extend_shared"):
                 bad = oracle(st0, op[1], op[2], s)
+                if not bad and len(ops) == 2 and ops[1][0] == "extend_shared" and len(states) == 2:
+                    bad = ["second use of the same map object: " + b for b in
+                           ((["raised " + states[1][1]]) if isinstance(states[1], tuple) else oracle(s, ops[1][1], ops[1][2], states[1]))]
             elif op[0] == "extend_offs":
                 bad = oracle(st0, op[1], op[3], s, shared_ids=True)
             elif op[0] == "extend_twice":
@@ -201,7 +208,7 @@ def main(tier, seed, replay=None):
                 run.violation("failing-input", {"input": {"init": init, "ops": [list(o) for o in ops]}, "observed": bad[:5],
                                                 "expected": "other's atoms appended in order (mapped ones adopt type and extra fields), every term of other between the corresponding atoms resolving to other's coefficient text, same-atom terms superseded forwards/backwards only, extra columns merged by label with '.'",
                                                 "case_kind": kind})
-            mm = op[2] if op[0] == "extend" else (op[3] if op[0] == "extend_offs" else [])
+            mm = op[2] if op[0] in ("extend", "extend_shared") else (op[3] if op[0] == "extend_offs" else [])
             if mm or any(st0[k]["tup"] and op[1][k]["tup"] for k, *_ in KINDS):
                 run.nontrivial((init, [list(o) for o in ops]))
             lits.append(AIO.case_literal(st0, ops, states, I))
